@@ -81,10 +81,10 @@ mut("c07_namespace_written", "C07", "matrices.py",
     "    env = Environment.capture(env, reference=1)\n",
     "    env = Environment.capture(env, reference=1)\n    if extra_namespace is not None and len(formula) > 40:\n        extra_namespace[\"_last_formula\"] = formula\n",
     "client passing an extra_namespace dict")
-mut("c07_result_aliases_training", "C07", "terms/terms.py",
-    "        return np.ones(data.shape[0], dtype=int)",
-    "        if self.data is not None and data.shape[0] == self.data.shape[0]:\n            return self.data\n        return np.ones(data.shape[0], dtype=int)",
-    "caller writes into a returned matrix of the same length as the training data")
+mut("c07_result_aliases_training", "C07", "matrices.py",
+    "        new_instance.slices = self.slices\n        new_instance.evaluated = True\n        return new_instance",
+    "        new_instance.slices = self.slices\n        new_instance.evaluated = True\n        if new_instance.design_matrix.shape == self.design_matrix.shape and np.array_equal(new_instance.design_matrix, self.design_matrix):\n            new_instance.design_matrix = self.design_matrix  # do not keep two copies of the same numbers\n        return new_instance",
+    "evaluating all training rows in order returns the training array itself; the caller then writes into it")
 # ------------------------------------------------------------------ C10
 mut("c10_zero_rule_missing", "C10", "terms/variable.py",
     "        contribution[idxs_original == -1] = 0\n", "", "unseen level in warning/silent mode")
